@@ -467,6 +467,49 @@ def write_state_rule(rep, f):
                "write left there influences the next one" % (fld, q, l), "src/xercesc/dom/impl/DOMLSSerializerImpl.cpp:%s" % l)
 
 
+def unrep_mode_rule(rep, g):
+    rep.rule("C12.k", "unrepresentable characters in values become character references: the serializer switches the formatter to "
+             "UnRep_Fail while it writes names and markup (the TRY_CATCH_THROW blocks) and back with setURCharRef(); every place in "
+             "processNode that writes node *value* data under an escaping mode (`<< getNodeValue()`, formatBuf(value, .., "
+             "CharEscapes)) is reached only with the reference mode re-established since the last switch to UnRep_Fail (CFG "
+             "must-dataflow: generated by setURCharRef, killed by setUnRepFlags(UnRep_Fail)) — otherwise a character the output "
+             "encoding lacks aborts the write instead of being written as &#x...;")
+    cfg = guard.Cfg(g.cfg("DOMLSSerializerImpl::processNode"))
+
+    def gen(el):
+        return any(c[0] == "c" and c[1].split("::")[-1] == "setURCharRef" for c in guard.el_top_calls(el))
+
+    def kill(el):
+        return any(c[0] == "c" and c[1].split("::")[-1] == "setUnRepFlags" and c[3] and c[3][0][0] == "e" and c[3][0][1].endswith("UnRep_Fail")
+                   for c in guard.el_top_calls(el))
+    # entry state: write() constructs the formatter in reference mode, and every case of processNode that recurses into
+    # children re-establishes it first (the TEXT / ELEMENT / DOCUMENT cases call setURCharRef themselves)
+    st = guard.must_state(cfg, gen_el=gen, kill_el=kill, entry=True)
+    n = 0
+
+    def is_value_write(el):
+        for c in guard.el_top_calls(el):
+            if c[0] != "c":
+                continue
+            short = c[1].split("::")[-1]
+            if short == "operator<<" and c[3] and any(isinstance(y, list) and y and y[0] == "c" and y[1].split("::")[-1] == "getNodeValue" for y in sx_walk(c[3][0])):
+                return True
+            if short == "formatBuf" and len(c[3]) >= 3 and c[3][2][0] == "e" and c[3][2][1].endswith("CharEscapes"):
+                return True
+        return False
+    for b, i, el in cfg.elements():
+        if not is_value_write(el):
+            continue
+        # value data written verbatim (CDATA, comments, PIs) is a different matter (C12.d): only escaped writes count here
+        n += 1
+        ok = st(b, i)
+        rep.ob("C12.k", "processNode@value:%s" % el.get("l"), ok, "written with character-reference substitution active" if ok else
+               "DOMLSSerializerImpl::processNode (line %s) writes value data on a path on which the formatter was last switched to "
+               "UnRep_Fail (a TRY_CATCH_THROW block) and not back with setURCharRef(): an unrepresentable character there aborts the "
+               "serialisation" % el.get("l"), "%s:%s" % (SER, el.get("l", 0)))
+    rep.floor("C12.k", n, 2)
+
+
 def run(rep):
     f = core.library_facts()
     g = core.run_xa([os.path.join(core.REPO, SER), os.path.join(core.REPO, FMT)],
@@ -480,6 +523,9 @@ def run(rep):
     charref_rule(rep, f)
     split_rule(rep)
     write_state_rule(rep, f)
+    unrep_mode_rule(rep, g)
+    from . import C13
+    C13.attr_identity_rule(rep, "C12.l")
     eaten_rule(rep, f, "C12.f", lambda fn: fn.get("cls") in ("XMLFormatter", "DOMLSSerializerImpl"))
     diag.run(rep, f, "C12")
     rep.undecided += ["round-trip equality (isEqualNode) and idempotence of serialisation: value-level",
